@@ -64,4 +64,6 @@ MapHeaderCounts == root.k = "obj" => Decode(EncTree(Tree, {}), 1).v = <<"map", D
 RtPol == [mm |-> "throw", ov |-> "throw", arch |-> "msgpack", dev |-> ""]
 \* C01: what loading the saved document back with the same script must deliver (the abstract document, independent of the bytes)
 Export == PrintT(<<"GEN", ToJson([root |-> root, exp |-> Exec(DocOf(Tree), root, RtPol), expsave |-> "ok"])>>)
+ExportWide == \A wt \in WideTypes : WideRoot(root, wt) = root \/
+                 PrintT(<<"GEN", ToJson([root |-> WideRoot(root, wt), exp |-> Exec(DocOf(Tree), root, RtPol), expsave |-> "ok"])>>)
 =============================================================================
